@@ -386,9 +386,19 @@ pub fn run(ctx: &Ctx) {
     ctx.subspace(&format!("PeerCrypto level: all canonical histories of length {} over {{seal, tick, deliver 0..2}} x receiver role", pc_depth), nh * 2, true);
 
     crate::props::node_level::c03_node(ctx);
+
+    // coverage-guided search over the same histories (libFuzzer target hist_c03: bytes -> operations -> this oracle);
+    // the committed corpus is replayed in-process in every tier, the campaign runs in the thorough tier
+    crate::targets::replay_corpus(ctx, "hist_c03");
+    if std::env::var("VCHECK_FUZZ").is_ok() && !ctx.quick() {
+        crate::fuzzdrv::run_campaign_par(ctx, "hist_c03", 1600000, 16, 128);
+    }
 }
 
 pub fn replay(ctx: &Ctx, case: &Value) {
+    if crate::fuzzdrv::replay(ctx, case) {
+        return;
+    }
     match case["kind"].as_str() {
         Some("window-pc") => {
             if let Ok(ops) = serde_json::from_value::<Vec<Op>>(case["ops"].clone()) {
